@@ -153,6 +153,20 @@ def check_listener(ix, rep, grammars, rule='R-LISTENER'):
                             rep.ok(rule, se.module.rel, se.qual, slot, 'syntaxError unconditionally raises RTAMTException', se.node.lineno)
                     else:
                         rep.fail(rule, lis.module.rel, lis.name + '.syntaxError', slot, 'the listener\'s syntaxError does not unconditionally raise RTAMTException', lis.node.lineno)
+                    # the other callbacks of the listener are diagnostics of the prediction (ambiguity resolved by precedence, full-context
+                    # retry, context sensitivity): the text is in the language, raising from them rejects it -- and only in the spelling
+                    # without redundant parentheses
+                    for cb in ('reportAmbiguity', 'reportAttemptingFullContext', 'reportContextSensitivity'):
+                        g = ix.resolve_method(lis, cb)
+                        if g is None:
+                            continue
+                        raises = [x for x in ast.walk(g.node) if isinstance(x, ast.Raise)]
+                        cslot = 'diagnostic:%s:%s' % (m.name.split('.')[-2], cb)
+                        if raises:
+                            rep.fail(rule, g.module.rel, g.qual, cslot, '%s raises: ANTLR calls it when a prediction needed more context or found two readings and resolved them by the '
+                                     'precedence order of the grammar -- the text is derivable, yet parse() fails (`x >= 3 - a` is rejected, `x >= (3 - a)` accepted)' % cb, raises[0].lineno)
+                        else:
+                            rep.ok(rule, g.module.rel, g.qual, cslot, 'diagnostic callback does not raise', g.node.lineno)
     if nsite == 0:
         raise AnalysisError('no ast_factory(...) call site found')
     return nsite
@@ -796,6 +810,19 @@ def _check_terminator(ix, rep, f, rule='R-GRAM'):
     if lexes and cmp_text:
         g = lexes[0]
         listener = any('parserErrorListenerType' in ast.unparse(n) and isinstance(n, ast.Assign) for n in ast.walk(g.node))
+        # the offset of the last token is an offset into the text that was scanned: the ';' has to be spliced into that same text
+        scanned = [ast.unparse(c.args[0]) for c in ast.walk(f.node) if isinstance(c, ast.Call) and isinstance(c.func, ast.Attribute) and isinstance(c.func.value, ast.Name)
+                   and c.func.value.id == 'self' and c.func.attr == g.node.name and c.args]
+        spliced = []
+        for st in ast.walk(f.node):
+            if isinstance(st, ast.Assign) and len(st.targets) == 1 and isinstance(st.targets[0], ast.Name) and any(isinstance(x, ast.Constant) and x.value == ';' for x in ast.walk(st.value)):
+                bases = {ast.unparse(x.value) for x in ast.walk(st.value) if isinstance(x, ast.Subscript) and isinstance(x.slice, ast.Slice)}
+                spliced.append((st, bases))
+        mism = [(st, b) for st, b in spliced if b and scanned and not (b <= set(scanned))]
+        if mism:
+            rep.fail(rule, f.module.rel, f.qual, slot + ':offset', "the last token is looked for in `%s` but its offset is used to splice the ';' into `%s`: with sub-specifications in front the "
+                     "';' lands inside the text, the terminated and the unterminated spelling no longer parse alike" % (scanned[0], sorted(mism[0][1])[0]), mism[0][0].lineno)
+            return
         if listener:
             rep.ok(rule, f.module.rel, f.qual, slot, 'the lexer is asked for the last token (%s): white space, comments and `//` inside identifiers are handled exactly as in the parse proper; '
                    'its errors go to the raising listener' % g.qual, appends[0].lineno)
@@ -1611,3 +1638,81 @@ def check_swallow(ix, rep, rule='R-EXC'):
         else:
             rep.ok(rule, f.module.rel, f.qual, 'no-swallow', 'no exception is discarded on the way out', f.node.lineno)
     return n
+
+
+def check_exception_constructor(ix, rep, rule='R-EXC'):
+    """raise RTAMTException(x) has to succeed whatever x is: the library raises it with texts *and* with caught exception objects
+    (`except AttributeError as err: raise RTAMTException(err)`).  The constructor (and __str__) may render its argument with str()/format()
+    but not call methods of it or index it: `args[0].strip()` on an exception object raises AttributeError while the RTAMTException is being
+    built, and that is what leaves parse()."""
+    exc = ix.find_class('rtamt.exception.exception', 'RTAMTException')
+    if exc is None:
+        raise AnalysisError('RTAMTException vanished')
+    n = 0
+    for name in ('__init__', '__str__', '__repr__'):
+        f = exc.methods.get(name)
+        if f is None:
+            continue
+        n += 1
+        rep.analysed(f)
+        rep.unit(f.module.rel)
+        # names that hold a constructor argument (or the message stored from one)
+        arg_names = {a.arg for a in f.node.args.args[1:]}
+        if f.node.args.vararg:
+            arg_names.add(f.node.args.vararg.arg)
+        bad = None
+        for x in ast.walk(f.node):
+            if isinstance(x, ast.Call) and isinstance(x.func, ast.Attribute):
+                recv = x.func.value
+                base = recv
+                while isinstance(base, ast.Subscript):
+                    base = base.value
+                is_arg = (isinstance(base, ast.Name) and base.id in arg_names) or (isinstance(base, ast.Attribute) and isinstance(base.value, ast.Name)
+                                                                                   and base.value.id == 'self' and base.attr == 'message')
+                if is_arg and x.func.attr not in ('format',) and not (isinstance(recv, ast.Name) and recv.id in arg_names and x.func.attr in ('__len__',)):
+                    bad = x
+            if isinstance(x, ast.BinOp) and isinstance(x.op, (ast.Add, ast.Mod)):
+                for side in (x.left, x.right):
+                    b2 = side
+                    while isinstance(b2, ast.Subscript):
+                        b2 = b2.value
+                    if isinstance(b2, ast.Name) and b2.id in arg_names and isinstance(side, ast.Subscript) and isinstance(x.op, ast.Add):
+                        bad = bad or x
+        slot = 'constructor:%s' % name
+        if bad is not None:
+            rep.fail(rule, f.module.rel, f.qual, slot, '`%s` treats the argument of the exception as text: RTAMTException is also raised with caught exception objects '
+                     '(raise RTAMTException(err)), for which this raises AttributeError/TypeError while the RTAMTException is being constructed -- another exception '
+                     'type leaves parse()' % ast.unparse(bad)[:60], bad.lineno)
+        else:
+            rep.ok(rule, f.module.rel, f.qual, slot, 'the argument is only stored / rendered with format()', f.node.lineno)
+    return n
+
+
+def check_subspec_registration(ix, rep, rule='R-EVERYPATH'):
+    """what parse() hands to the recogniser is everything the user registered: add_sub_spec() extends modular_spec with its argument on every
+    path (a 'seen before' test on the accumulated *text* is a substring test: a fragment that occurs inside an earlier sub-specification is
+    dropped and the text that is parsed is not the text that was given)."""
+    ltl, stl, absast = parser_classes(ix)
+    f = absast.methods.get('add_sub_spec')
+    if f is None:
+        raise AnalysisError('AbstractAst.add_sub_spec vanished')
+    rep.analysed(f)
+    p = f.node.args.args[1].arg
+    cfg = flow.CFG(f.node)
+    ext = [n for n in cfg.nodes() if isinstance(cfg.stmt[n], (ast.Assign, ast.AugAssign)) and 'modular_spec' in ast.unparse(cfg.stmt[n].targets[0] if isinstance(cfg.stmt[n], ast.Assign) else cfg.stmt[n].target)
+           and any(isinstance(x, ast.Name) and x.id == p for x in ast.walk(cfg.stmt[n].value))]
+    blocked = set(ext)
+    seen = set()
+    stack = [cfg.entry]
+    while stack:
+        n = stack.pop()
+        if n in seen or n in blocked:
+            continue
+        seen.add(n)
+        stack.extend(cfg.succ[n])
+    if ext and cfg.exit not in seen:
+        rep.ok(rule, f.module.rel, f.qual, 'add_sub_spec', 'every path appends the given text to modular_spec', f.node.lineno)
+    else:
+        rep.fail(rule, f.module.rel, f.qual, 'add_sub_spec', 'a path through add_sub_spec() returns without appending the given text to modular_spec: what parse() checks is then not what '
+                 'the user registered (a text that is not in the language is accepted because part of it was dropped)', f.node.lineno)
+    return 1
